@@ -509,20 +509,8 @@ fn serialize<W: std::io::Write>(&self, s: &mut Serializer<W>) -> SerResult {
 }""")
 MANUAL_DE_LOCATION = norm("""
 fn deserialize(d: &mut Deserializer<'xml>) -> DeResult<Self> {
-    let mut location_constraint: Option<BucketLocationConstraint> = None;
-    d.for_each_element(|d, x| match x {
-        b"LocationConstraint" => {
-            if location_constraint.is_some() {
-                return Err(DeError::DuplicateField);
-            }
-            let val: BucketLocationConstraint = d.content()?;
-            if !val.as_str().is_empty() {
-                location_constraint = Some(val);
-            }
-            Ok(())
-        }
-        _ => Err(DeError::UnexpectedTagName),
-    })?;
+    let val: BucketLocationConstraint = d.named_element("LocationConstraint", Deserializer::content)?;
+    let location_constraint = if val.as_str().is_empty() { None } else { Some(val) };
     Ok(Self { location_constraint })
 }""")
 MANUAL_SER_ASSUME = norm("""
